@@ -132,7 +132,7 @@ func r10_1(c *Ctx, r *Report) {
 	sites := reversePushSites(c, fn)
 	for _, ps := range sites {
 		// once per way control reaches the append (a helper or function literal called from several places)
-		for _, ctx := range factsAtAll(c, ps.fn, ps.call.Block()) {
+		for _, ctx := range factsRooted(c, fn, ps.fn, ps.call.Block()) {
 			fr, facts := ctx.fr, ctx.facts
 			pfr, pushed := fr.origin(unwrapIface(ps.call.Common().Args[1]))
 			found := map[int][]string{}
@@ -212,7 +212,7 @@ func r10_2(c *Ctx, r *Report) {
 	n := 0
 	for _, ps := range reversePushSites(c, fn) {
 		var facts []fact
-		for _, ctx := range factsAtAll(c, ps.fn, ps.call.Block()) {
+		for _, ctx := range factsRooted(c, fn, ps.fn, ps.call.Block()) {
 			facts = append(facts, ctx.facts...)
 		}
 		for _, f := range facts {
@@ -247,7 +247,10 @@ func r10_2(c *Ctx, r *Report) {
 	m := 0
 	for _, site := range lateRatSites(c, fn) {
 		m++
-		_, facts := factsAt(c, site.fn, site.block)
+		var facts []fact
+		for _, ctx := range factsRooted(c, fn, site.fn, site.block) {
+			facts = append(facts, ctx.facts...)
+		}
 		sectKnown, ratKnown := false, false
 		for _, fc := range facts {
 			onSect := true
@@ -429,9 +432,22 @@ func r10_5(c *Ctx, r *Report) {
 	n := 0
 	for _, ps := range reversePushSites(c, fn) {
 		// once per way control reaches the verification (a helper or function literal called once per candidate hour)
-		for _, ctx := range factsAtAll(c, ps.fn, ps.call.Block()) {
+		for _, ctx := range factsRooted(c, fn, ps.fn, ps.call.Block()) {
 			fr0 := ctx.fr
 			cfr, cv := fr0.origin(unwrapIface(ps.call.Common().Args[1]))
+			// a candidate built by an unexported helper (one return): the constructor call is looked for there
+			for depth := 0; depth < 3; depth++ {
+				hc, isCall := cv.(*ssa.Call)
+				if !isCall || hc.Common().StaticCallee() == nil || !isLocalHelper(hc.Common().StaticCallee()) || hc.Common().StaticCallee().Blocks == nil {
+					break
+				}
+				rets := returnsIn(hc.Common().StaticCallee(), nil)
+				if len(rets) != 1 || len(rets[0].Results) != 1 {
+					break
+				}
+				hfr := &evalFrame{fn: hc.Common().StaticCallee(), parent: cfr, call: hc}
+				cfr, cv = hfr.origin(rets[0].Results[0])
+			}
 			ctor, ok := cv.(*ssa.Call)
 			if !ok || ctor.Common().StaticCallee() == nil || ctor.Common().StaticCallee().Name() != "NewSolar" || len(ctor.Common().Args) != 6 {
 				r.bad(rule, "the candidate is built by NewSolar", c.pos(ps.call.Pos()), "the pushed moment is not the result of a NewSolar call")
